@@ -235,7 +235,7 @@ def run_property(pid, tier, seed, only_units=None, quiet=False):
         # known finding?
         hit = None
         for k in kf:
-            if k.get('unit') == u.name and re.search(k.get('obligation', '.'), f['name'] + ' ' + f.get('description', '')):
+            if re.fullmatch(k.get('unit', ''), u.name) and re.search(k.get('obligation', '.'), f['name'] + ' ' + f.get('description', '')):
                 if rr.get('reproduced') and k.get('signature') and k['signature'] not in rr.get('detail', ''):
                     continue
                 hit = k
